@@ -12,6 +12,12 @@ import extract
 VERUS = shutil.which('verus') or '/opt/veriftools/verus/verus'
 BASE_FLAGS = ['--output-json', '--time', '--triggers-mode', 'silent', '--multiple-errors', '40', '--error-format=json']
 
+VERIF_MSGS = ('postcondition not satisfied', 'precondition not satisfied', 'assertion failed', 'invariant not satisfied', 'loop invariant not satisfied',
+              'possible arithmetic underflow/overflow', 'possible division by zero', 'decreases not satisfied', 'termination', 'possible bit shift underflow/overflow',
+              'assertion failure', 'failed this', 'unable to prove', 'could not prove')
+import threading
+_extract_lock = threading.Lock()
+
 class Undecided(Exception):
     pass
 
@@ -64,6 +70,11 @@ def classify(meta, res, unit_file):
         lines = [(s['line_start'], s['line_end'], s.get('label') or '', s.get('is_primary')) for s in spans]
         if 'rlimit' in msg.lower() or 'resource limit' in msg.lower() or 'timed out' in msg.lower():
             r['rlimit'].append((msg, lines)); continue
+        is_verif = d.get('code') is None and any(k in msg for k in VERIF_MSGS)
+        if not is_verif:
+            # rustc / Verus front-end rejection (type error, unsupported construct, lost name...): never a violation
+            r['compile_errors'].append((msg + ' ' + '; '.join('%d: %s' % (a, text_lines[a - 1].strip()[:120]) for (a, b, l, p) in lines[:2]))[:600])
+            continue
         hit = False
         # 1. clause spans
         for c in clauses:
@@ -93,8 +104,9 @@ def classify(meta, res, unit_file):
 
 def unit_result(unit, tier='quick', seed=0, probe=False, known_strict=()):
     """build + verify one unit (cached on the generated text)"""
-    path, meta = extract.build_unit(unit, REPO, VERIF, BUILD)
-    text = open(path).read()
+    with _extract_lock:     # the extractor keeps per-function counters in module state
+        path, meta = extract.build_unit(unit, REPO, VERIF, BUILD)
+        text = open(path).read()
     key = hashlib.sha256((text + verus_version() + ' '.join(BASE_FLAGS)).encode()).hexdigest()[:24]
     cdir = os.path.join(BUILD, 'cache'); os.makedirs(cdir, exist_ok=True)
     cpath = os.path.join(cdir, '%s-%s.json' % (unit, key))
